@@ -5,18 +5,25 @@ import (
 	"encoding/json"
 	"fmt"
 	"math/bits"
+	"sync"
+	"sync/atomic"
 
 	"github.com/enfein/mieru/v3/pkg/mathext"
 	"github.com/enfein/mieru/v3/pkg/protocol"
+	"github.com/enfein/mieru/v3/pkg/rng"
 	"verifharness/core"
+	"verifharness/wire"
 )
 
 // C17 — low-entropy encoding is lossless, canonical, identical on every CPU path.
 //
-// Correspondence: real encode/decode/metadata validation and pdep/pext (generic and BMI2) against
-// the bit-by-bit Lean reference (Mieru.Model.LowEntropy). Direct oracle: round trip, length law,
-// canonicity (anything the decoder accepts is the encoder's output for one of the two polarities),
-// rejection of invalid parameters, BMI2 == generic.
+// Three things are compared on every case:
+//   (C)  the real functions against the bit-by-bit Lean reference (Mieru.Model.LowEntropy, driver ops le-*/pdep/pext),
+//   (C') the real functions against the REGENERATED definitions (Mieru.Gen.LE via mieru-gen, ops le-gen-*): this
+//        validates the translator of tools/goextract/lowentropy.go (Props/C17 proves Gen = model),
+//   (D)  the direct oracle on the real code alone: round trip, length law, the documented wire format (an
+//        independent Go reference written from docs/protocol.md, harness/wire), canonicity, rejection of every
+//        invalid parameter class, BMI2 == portable. A direct-oracle failure carries a concrete replay.
 
 type leCase struct {
 	Kind  string `json:"kind"`
@@ -32,6 +39,9 @@ type leCase struct {
 	ELen  int    `json:"extracted_len,omitempty"`
 	X     uint64 `json:"x,omitempty"`
 	Mask  uint64 `json:"mask,omitempty"`
+	// big bodies are described, not spelled out: Fill byte pattern of length N (kind "roundtrip-fill")
+	Fill string `json:"fill,omitempty"`
+	I    int    `json:"i,omitempty"`
 }
 
 var leC = []int{0, 4, 5, 6, 7}
@@ -54,41 +64,141 @@ func validRotations() []int {
 	return r
 }
 
+func c17ValidRot(r int) bool { return r == 0 || (r >= 1 && r <= 15) || (r >= 16 && r <= 240 && r%16 == 0) }
+
+// c17Invalid names the documented reason why (mode, half, rot) is not a valid parameter triple ("" = valid).
+func c17Invalid(mode int, half uint32, rot int) string {
+	switch {
+	case mode < 1 || mode > 4:
+		return "mode"
+	case bits.OnesCount32(half) != leOnes[mode]:
+		if bits.OnesCount32(half) > leOnes[mode] {
+			return "mask-weight-above"
+		}
+		return "mask-weight-below"
+	case !c17ValidRot(rot):
+		return "rotation"
+	}
+	return ""
+}
+
+func c17Fill(pattern string, n int) []byte {
+	b := make([]byte, n)
+	switch pattern {
+	case "zero":
+	case "ff":
+		for i := range b {
+			b[i] = 0xff
+		}
+	default: // "count": a deterministic non-periodic-looking pattern
+		x := uint32(2463534242)
+		for i := range b {
+			x ^= x << 13
+			x ^= x >> 17
+			x ^= x << 5
+			b[i] = byte(x>>8) ^ byte(i)
+		}
+	}
+	return b
+}
+
+func c17Src(k leCase) []byte {
+	if k.Fill != "" {
+		return c17Fill(k.Fill, k.N)
+	}
+	return core.UnHex(k.Src)
+}
+
+func c17RotClass(rot int) string {
+	switch {
+	case rot == 0:
+		return "0"
+	case rot == 15:
+		return "15"
+	case rot < 15 && rot > 0:
+		return "right"
+	case rot == 240:
+		return "240"
+	case c17ValidRot(rot):
+		return "left"
+	}
+	return "invalid"
+}
+
 func c17RoundTrip(c *core.Ctx, k leCase) {
-	src := core.UnHex(k.Src)
-	key := fmt.Sprintf("rt/%d/%d/%d/%d/%s", k.Mode, k.Half, k.Rot, k.Pad, k.Src)
+	src := c17Src(k)
+	key := fmt.Sprintf("rt/%d/%d/%d/%d/%s/%s%d", k.Mode, k.Half, k.Rot, k.Pad, k.Src, k.Fill, k.N)
 	enc, err := protocol.VerifEncodeLowEntropy(src, k.Mode, k.Half, k.Rot, uint8(k.Pad))
 	c.Eval(key, err == nil)
 	c.Hist("mode", fmt.Sprint(k.Mode))
 	c.Hist("body_size", core.SizeBucket(len(src)))
+	c.Hist("rotation_class", c17RotClass(k.Rot))
 	if err != nil {
 		c.Hist("branch", "encode-rejected")
 	} else {
 		c.Hist("branch", "encode-ok")
 	}
-	// correspondence: encoder
-	m := c.Model.Ask("le-enc %s %d %d %d %d", core.Hex(src), k.Mode, k.Half, k.Rot, k.Pad)
-	c.Compared()
 	var got string
 	if err != nil {
 		got = "err rejected"
 	} else {
 		got = "ok " + core.Hex(enc)
 	}
-	if m != got {
-		c.Disagree("C17/corr/le-enc", fmt.Sprintf("encoder: model %.80s impl %.80s", m, got), k)
+	// correspondence: encoder vs hand-written model and vs regenerated definitions. The list-based Lean encoders
+	// need seconds for a 32 KiB body: in the quick tier the largest bodies go through the model's DECODER
+	// (below), the Go reference and — at the maximal chunk count — the regenerated encoder only.
+	big := len(src) > 20000 && !c.Thorough()
+	maxChunks := k.Mode >= 1 && k.Mode <= 4 && len(src) == 8191*leC[k.Mode]
+	if !big {
+		m := c.Model.Ask("le-enc %s %d %d %d %d", core.Hex(src), k.Mode, k.Half, k.Rot, k.Pad)
+		c.Compared()
+		if m != got {
+			c.Disagree("C17/corr/le-enc", fmt.Sprintf("encoder: model %.80s impl %.80s", m, got), k)
+		}
 	}
-	if err != nil {
+	if c.Gen != nil && k.Pad < 256 && (!big || maxChunks) {
+		g := c.Gen.Ask("le-gen-enc %s %d %d %d %d", core.Hex(src), k.Mode, k.Half, k.Rot, k.Pad)
+		c.Compared()
+		if g != got {
+			c.Disagree("C17/corr/le-gen-enc", fmt.Sprintf("encoder: regenerated definition %.80s impl %.80s", g, got), k)
+		}
+	}
+	// direct oracle: acceptance is exactly the documented parameter validity
+	C := 0
+	if k.Mode >= 1 && k.Mode <= 4 {
+		C = leC[k.Mode]
+	}
+	why := c17Invalid(k.Mode, k.Half, k.Rot)
+	if why == "" && k.Pad > 1 {
+		why = "padding-bit"
+	}
+	if why == "" && (len(src) == 0 || (len(src)+C-1)/C > 8191) {
+		why = "length"
+	}
+	if why != "" {
+		if err == nil {
+			c.Violate("C17/accepts-invalid/encoder/"+why, fmt.Sprintf("the encoder accepted an invalid %s (mode %d, half mask %08x with %d one-bits, rotation %d, padding bit %d, %d bytes)", why, k.Mode, k.Half, bits.OnesCount32(k.Half), k.Rot, k.Pad, len(src)), k)
+		}
 		return
 	}
-	// direct oracle: length law and round trip
-	C := leC[k.Mode]
+	if err != nil {
+		c.Violate(fmt.Sprintf("C17/rejects-valid/encoder/mode=%d", k.Mode), fmt.Sprintf("the encoder rejected valid parameters: %v", err), k)
+		return
+	}
+	// length law, documented wire format, round trip
 	if want := (len(src) + C - 1) / C * 8; len(enc) != want {
 		c.Violate(fmt.Sprintf("C17/length/mode=%d", k.Mode), fmt.Sprintf("encoded length %d, want ceil(%d/%d)*8=%d", len(enc), len(src), C, want), k)
 	}
+	if ref := wire.LEEncode(src, uint8(k.Mode), k.Half, uint8(k.Rot), k.Pad); !bytes.Equal(ref, enc) {
+		at := 0
+		for at < len(ref) && at < len(enc) && ref[at] == enc[at] {
+			at++
+		}
+		c.Violate(fmt.Sprintf("C17/spec/encoder-output/mode=%d/rot=%s/pad=%d", k.Mode, c17RotClass(k.Rot), k.Pad), fmt.Sprintf("the encoding differs from docs/protocol.md (chunk i uses the initial mask rotated by i*R, big-endian deposit, uniform padding) from byte %d (chunk %d) on: rotation %d, %d bytes", at, at/8, k.Rot, len(src)), k)
+	}
 	dec, derr := protocol.VerifDecodeLowEntropy(enc, len(src), k.Mode, k.Half, k.Rot)
 	if derr != nil || !bytes.Equal(dec, src) {
-		c.Violate(fmt.Sprintf("C17/roundtrip/mode=%d/rot=%d/pad=%d", k.Mode, k.Rot, k.Pad), fmt.Sprintf("decode(encode(src)) != src (err=%v)", derr), k)
+		c.Violate(fmt.Sprintf("C17/roundtrip/mode=%d/rot=%s/pad=%d", k.Mode, c17RotClass(k.Rot), k.Pad), fmt.Sprintf("decode(encode(src)) != src (err=%v)", derr), k)
 	}
 	md := c.Model.Ask("le-dec %s %d %d %d %d", core.Hex(enc), len(src), k.Mode, k.Half, k.Rot)
 	c.Compared()
@@ -107,16 +217,28 @@ func c17Decode(c *core.Ctx, k leCase) {
 	} else {
 		c.Hist("branch", "decode-accepted:"+k.Kind)
 	}
-	m := c.Model.Ask("le-dec %s %d %d %d %d", core.Hex(enc), k.N, k.Mode, k.Half, k.Rot)
-	c.Compared()
 	got := "err rejected"
 	if err == nil {
 		got = "ok " + core.Hex(dec)
 	}
+	m := c.Model.Ask("le-dec %s %d %d %d %d", core.Hex(enc), k.N, k.Mode, k.Half, k.Rot)
+	c.Compared()
 	if m != got {
 		c.Disagree("C17/corr/le-dec", fmt.Sprintf("decoder: model %.80s impl %.80s", m, got), k)
 	}
+	if c.Gen != nil {
+		g := c.Gen.Ask("le-gen-dec %s %d %d %d %d", core.Hex(enc), k.N, k.Mode, k.Half, k.Rot)
+		c.Compared()
+		if g != got {
+			c.Disagree("C17/corr/le-gen-dec", fmt.Sprintf("decoder: regenerated definition %.80s impl %.80s", g, got), k)
+		}
+	}
+	why := c17Invalid(k.Mode, k.Half, k.Rot)
 	if err == nil {
+		if why != "" {
+			c.Violate("C17/accepts-invalid/decoder/"+why, fmt.Sprintf("the decoder accepted an invalid %s (mode %d, half mask %08x with %d one-bits, rotation %d)", why, k.Mode, k.Half, bits.OnesCount32(k.Half), k.Rot), k)
+			return
+		}
 		// canonicity: what was accepted is exactly the encoder's output for one polarity
 		e0, err0 := protocol.VerifEncodeLowEntropy(dec, k.Mode, k.Half, k.Rot, 0)
 		e1, err1 := protocol.VerifEncodeLowEntropy(dec, k.Mode, k.Half, k.Rot, 1)
@@ -125,6 +247,18 @@ func c17Decode(c *core.Ctx, k leCase) {
 		}
 		if len(dec) != k.N {
 			c.Violate("C17/decoded-length", fmt.Sprintf("decoded %d bytes, asked for %d", len(dec), k.N), k)
+		}
+	}
+	// documented format: the independent reference accepts exactly the same strings with the same result
+	if why == "" {
+		ref, rerr := wire.LEDecode(enc, k.N, uint8(k.Mode), k.Half, uint8(k.Rot))
+		switch {
+		case rerr == nil && err != nil:
+			c.Violate(fmt.Sprintf("C17/spec/decoder-rejects-canonical/mode=%d/rot=%s", k.Mode, c17RotClass(k.Rot)), fmt.Sprintf("the decoder rejects an encoding that is canonical per docs/protocol.md: %v", err), k)
+		case rerr != nil && err == nil:
+			c.Violate(fmt.Sprintf("C17/spec/decoder-accepts-noncanonical/mode=%d/rot=%s", k.Mode, c17RotClass(k.Rot)), fmt.Sprintf("the decoder accepts a byte string docs/protocol.md calls invalid (%v)", rerr), k)
+		case rerr == nil && !bytes.Equal(ref, dec):
+			c.Violate(fmt.Sprintf("C17/spec/decoder-output/mode=%d/rot=%s", k.Mode, c17RotClass(k.Rot)), "the decoder returns other bytes than docs/protocol.md prescribes", k)
 		}
 	}
 }
@@ -142,19 +276,40 @@ func c17Meta(c *core.Ctx, k leCase) {
 	if m != fmt.Sprintf("ok %v", err == nil) {
 		c.Disagree("C17/corr/le-meta", fmt.Sprintf("metadata validation: model %s impl err=%v", m, err), k)
 	}
-	if err == nil {
-		// direct oracle: accepted metadata ties the fields together as documented
-		okMode := k.Mode >= 1 && k.Mode <= 4
-		if !okMode || bits.OnesCount32(k.Half) != leOnes[k.Mode] || (k.ELen > 0 && k.PLen != (k.ELen+leC[k.Mode]-1)/leC[k.Mode]*8) || (k.ELen == 0 && k.PLen != 0) {
-			c.Violate("C17/meta-accepts-inconsistent", "metadata validation accepted inconsistent low-entropy fields", k)
+	if c.Gen != nil {
+		g := c.Gen.Ask("le-gen-meta %d %d %d %d %d %d", k.Proto, k.Mode, k.Half, k.Rot, k.PLen, k.ELen)
+		c.Compared()
+		if g != fmt.Sprintf("ok %v", err == nil) {
+			c.Disagree("C17/corr/le-gen-meta", fmt.Sprintf("metadata validation: regenerated definition %s impl err=%v", g, err), k)
 		}
+	}
+	// direct oracle: accepted ⇔ the documented consistency of the fields
+	why := ""
+	switch {
+	case k.Proto != 10 && k.Proto != 11:
+		why = "protocol"
+	case c17Invalid(k.Mode, k.Half, k.Rot) != "":
+		why = c17Invalid(k.Mode, k.Half, k.Rot)
+	case k.ELen > 32768:
+		why = "extracted-length"
+	case k.ELen == 0 && k.PLen != 0:
+		why = "length-pair"
+	case k.ELen > 0 && ((k.ELen+leC[k.Mode]-1)/leC[k.Mode] > 8191 || k.PLen != (k.ELen+leC[k.Mode]-1)/leC[k.Mode]*8):
+		why = "length-pair"
+	}
+	c.Hist("meta_class", map[bool]string{true: "consistent", false: "inconsistent:" + why}[why == ""])
+	if err == nil && why != "" {
+		c.Violate("C17/meta-accepts-inconsistent/"+why, "metadata validation accepted inconsistent low-entropy fields ("+why+")", k)
+	}
+	if err != nil && why == "" {
+		c.Violate("C17/meta-rejects-consistent", fmt.Sprintf("metadata validation rejected consistent low-entropy fields: %v", err), k)
 	}
 }
 
 func c17Bits(c *core.Ctx, k leCase) {
 	x, mask := k.X, k.Mask
 	c.Eval(fmt.Sprintf("bits/%d/%d", x, mask), true)
-	c.Hist("mask_weight", fmt.Sprint(bits.OnesCount64(mask)/8*8))
+	c.Hist("mask_weight", fmt.Sprintf("%02d-%02d", bits.OnesCount64(mask)/8*8, bits.OnesCount64(mask)/8*8+7))
 	pg, eg := mathext.VerifPdepGeneric(x, mask), mathext.VerifPextGeneric(x, mask)
 	ms := c.Model.Ask("pdep %d %d", x, mask)
 	ml := c.Model.Ask("pdep-go %d %d", x, mask)
@@ -167,39 +322,625 @@ func c17Bits(c *core.Ctx, k leCase) {
 	if es != fmt.Sprintf("ok %d", eg) || el != es {
 		c.Disagree("C17/corr/pext", fmt.Sprintf("pext: spec %s loop-model %s impl %d", es, el, eg), k)
 	}
-	if mathext.VerifHasBMI2() {
+	if c.Gen != nil {
+		gp := c.Gen.Ask("le-gen-pdep %d %d", x, mask)
+		ge := c.Gen.Ask("le-gen-pext %d %d", x, mask)
+		c.Compared()
+		if gp != fmt.Sprintf("ok %d", pg) {
+			c.Disagree("C17/corr/le-gen-pdep", fmt.Sprintf("pdepGeneric: regenerated definition %s impl %d", gp, pg), k)
+		}
+		if ge != fmt.Sprintf("ok %d", eg) {
+			c.Disagree("C17/corr/le-gen-pext", fmt.Sprintf("pextGeneric: regenerated definition %s impl %d", ge, eg), k)
+		}
+	}
+	c17BitsDirect(c, x, mask, "case")
+}
+
+// c17PdepRef / c17PextRef: the documented semantics, bit by bit (independent of the code under test).
+func c17PdepRef(x, mask uint64) uint64 {
+	var r uint64
+	k := uint(0)
+	for pos := uint(0); pos < 64; pos++ {
+		if mask>>pos&1 == 1 {
+			r |= (x >> k & 1) << pos
+			k++
+		}
+	}
+	return r
+}
+
+func c17PextRef(x, mask uint64) uint64 {
+	var r uint64
+	k := uint(0)
+	for pos := uint(0); pos < 64; pos++ {
+		if mask>>pos&1 == 1 {
+			r |= (x >> pos & 1) << k
+			k++
+		}
+	}
+	return r
+}
+
+var c17HasBMI2 = mathext.VerifHasBMI2()
+
+// c17BitsDirect is the direct oracle for one (x, mask) pair on the real routines only; it is cheap enough to
+// be run over millions of pairs. Returns false on a violation.
+func c17BitsDirect(c *core.Ctx, x, mask uint64, class string) bool {
+	pg, eg := mathext.VerifPdepGeneric(x, mask), mathext.VerifPextGeneric(x, mask)
+	ok := true
+	k := leCase{Kind: "bits", X: x, Mask: mask}
+	if c17HasBMI2 {
 		if pb := mathext.VerifPdepBMI2(x, mask); pb != pg {
-			c.Violate("C17/bmi2/pdep", fmt.Sprintf("pdepBMI2=%d pdepGeneric=%d", pb, pg), k)
+			c.Violate("C17/bmi2/pdep", fmt.Sprintf("pdepBMI2(%#x,%#x)=%#x pdepGeneric=%#x (%s)", x, mask, pb, pg, class), k)
+			ok = false
 		}
 		if eb := mathext.VerifPextBMI2(x, mask); eb != eg {
-			c.Violate("C17/bmi2/pext", fmt.Sprintf("pextBMI2=%d pextGeneric=%d", eb, eg), k)
+			c.Violate("C17/bmi2/pext", fmt.Sprintf("pextBMI2(%#x,%#x)=%#x pextGeneric=%#x (%s)", x, mask, eb, eg, class), k)
+			ok = false
 		}
 	}
 	if mathext.PDEP(x, mask) != pg || mathext.PEXT(x, mask) != eg {
-		c.Violate("C17/dispatch", "exported PDEP/PEXT differ from the portable routine", k)
+		c.Violate("C17/dispatch", fmt.Sprintf("exported PDEP/PEXT differ from the portable routine on (%#x,%#x) (%s)", x, mask, class), k)
+		ok = false
+	}
+	return ok
+}
+
+// c17BitsRef additionally checks the portable routine against the bit-by-bit semantics (slower: 64 steps).
+func c17BitsRef(c *core.Ctx, x, mask uint64, class string) bool {
+	ok := c17BitsDirect(c, x, mask, class)
+	k := leCase{Kind: "bits", X: x, Mask: mask}
+	if pg := mathext.VerifPdepGeneric(x, mask); pg != c17PdepRef(x, mask) {
+		c.Violate("C17/portable/pdep", fmt.Sprintf("pdepGeneric(%#x,%#x)=%#x, bit-by-bit deposit gives %#x (%s)", x, mask, pg, c17PdepRef(x, mask), class), k)
+		ok = false
+	}
+	if eg := mathext.VerifPextGeneric(x, mask); eg != c17PextRef(x, mask) {
+		c.Violate("C17/portable/pext", fmt.Sprintf("pextGeneric(%#x,%#x)=%#x, bit-by-bit extract gives %#x (%s)", x, mask, eg, c17PextRef(x, mask), class), k)
+		ok = false
+	}
+	return ok
+}
+
+// c17HalfFamily: deterministic half masks of the mode's weight (low run, high run, two runs, spread patterns).
+func c17HalfFamily(ones int) []uint32 {
+	low := uint32(1)<<uint(ones) - 1
+	fam := []uint32{low, low << uint(32-ones), bits.RotateLeft32(low, 32-ones/2)}
+	// spread: take bit i iff (i*ones)/32 changes, i.e. evenly spaced positions
+	var sp uint32
+	for i := 0; i < 32; i++ {
+		if (i+1)*ones/32 != i*ones/32 {
+			sp |= 1 << uint(i)
+		}
+	}
+	fam = append(fam, sp, bits.Reverse32(sp), bits.RotateLeft32(sp, 7))
+	if ones == 16 {
+		fam = append(fam, 0x0f0f0f0f, 0x55555555, 0xaaaaaaaa, 0x00ff00ff, 0xffff0000)
+	}
+	return fam
+}
+
+// c17BitsSweep: the structured differential sweep BMI2 vs portable (and portable vs bit-by-bit semantics where
+// affordable), identical on every run; random pairs are added from c.Rand. Pure Go: millions of pairs per second.
+func c17BitsSweep(c *core.Ctx) {
+	var n int64
+	count := func(class string, k int) {
+		for i := 0; i < k; i++ {
+			c.Hist("bits_sweep_class", class)
+		}
+	}
+	// (1) all single-bit masks x all single-bit values (+ zero, all-ones)
+	for i := uint(0); i < 64; i++ {
+		for j := uint(0); j < 64; j++ {
+			c17BitsRef(c, 1<<j, 1<<i, "single-bit mask x single-bit value")
+			n++
+		}
+		c17BitsRef(c, 0, 1<<i, "single-bit mask")
+		c17BitsRef(c, ^uint64(0), 1<<i, "single-bit mask")
+		n += 2
+	}
+	count("single-bit-mask x single-bit-value", 1)
+	// (2) all 2080 contiguous masks x boundary values
+	xs := []uint64{0, ^uint64(0), 0x5555555555555555, 0xaaaaaaaaaaaaaaaa, 0x0123456789abcdef, 0x8000000000000001}
+	for lo := uint(0); lo < 64; lo++ {
+		for hi := lo; hi < 64; hi++ {
+			m := (^uint64(0) >> (63 - hi + lo)) << lo
+			for _, x := range xs {
+				c17BitsRef(c, x, m, "contiguous mask")
+			}
+			w := hi - lo + 1
+			for _, sh := range []uint{0, w - 1, w, lo, hi, 63} { // value bits at and just beyond the mask's width / ends
+				if sh < 64 {
+					c17BitsRef(c, 1<<sh, m, "contiguous mask")
+					n++
+				}
+			}
+			n += int64(len(xs))
+		}
+	}
+	count("contiguous-mask", 1)
+	// (3) the rotated repeated half masks the codec uses: family x every rotation amount x source shapes
+	for mode := 1; mode <= 4; mode++ {
+		fam := c17HalfFamily(leOnes[mode])
+		for r := 0; r < 8; r++ {
+			fam = append(fam, randHalfMask(c, leOnes[mode]))
+		}
+		for _, h := range fam {
+			for rot := 0; rot < 64; rot++ {
+				m := bits.RotateLeft64(mathext.RepeatUint32(h), rot)
+				for nb := 1; nb <= leC[mode]; nb++ {
+					lb := uint64(1)<<uint(8*nb) - 1
+					c17BitsRef(c, lb, m, "codec mask, lowBits")                     // dataMask
+					c17BitsDirect(c, c.Rand.Uint64()&lb, m, "codec mask, source")   // PDEP(source, mask)
+					c17BitsDirect(c, c.Rand.Uint64(), m, "codec mask, wire chunk") // PEXT(chunk, mask)
+					n += 3
+				}
+			}
+		}
+	}
+	count("codec-rotated-half-mask", 1)
+	// (4) every weight class 0..64
+	for w := 0; w <= 64; w++ {
+		for r := 0; r < 8; r++ {
+			perm := c.Rand.Perm(64)
+			var m uint64
+			for i := 0; i < w; i++ {
+				m |= 1 << uint(perm[i])
+			}
+			c17BitsRef(c, ^uint64(0), m, fmt.Sprintf("weight %d", w))
+			c17BitsRef(c, c.Rand.Uint64(), m, fmt.Sprintf("weight %d", w))
+			c17BitsRef(c, uint64(1)<<uint(w%64), m, fmt.Sprintf("weight %d", w))
+			n += 3
+		}
+	}
+	count("weight-classes-0..64", 1)
+	// (5) exhaustive on a window: ALL masks x ALL values of `bitsW` bits, at three positions of the word
+	bitsW := uint(11)
+	if c.Thorough() {
+		bitsW = 13
+	}
+	if c.Search {
+		bitsW++
+	}
+	var bad int32
+	var wg sync.WaitGroup
+	var total int64
+	for _, sh := range []uint{0, 27, 64 - bitsW} {
+		for part := 0; part < 8; part++ {
+			wg.Add(1)
+			go func(sh uint, part int) {
+				defer wg.Done()
+				lim := uint64(1) << bitsW
+				var cnt int64
+				for m := uint64(part); m < lim; m += 8 {
+					for x := uint64(0); x < lim; x++ {
+						X, M := x<<sh, m<<sh
+						pg, eg := mathext.VerifPdepGeneric(x, M), mathext.VerifPextGeneric(X, M)
+						fail := mathext.PDEP(x, M) != pg || mathext.PEXT(X, M) != eg
+						if c17HasBMI2 && (mathext.VerifPdepBMI2(x, M) != pg || mathext.VerifPextBMI2(X, M) != eg) {
+							fail = true
+						}
+						cnt++
+						if fail && atomic.AddInt32(&bad, 1) <= 3 {
+							c17BitsDirect(c, x, M, "window")
+							c17BitsDirect(c, X, M, "window")
+						}
+					}
+				}
+				atomic.AddInt64(&total, cnt)
+			}(sh, part)
+		}
+	}
+	wg.Wait()
+	n += total
+	count(fmt.Sprintf("exhaustive-%d-bit-window x3", bitsW), 1)
+	// (6) random pairs
+	rn := c.N(200000, 4000000)
+	for i := 0; i < rn; i++ {
+		x, m := c.Rand.Uint64(), c.Rand.Uint64()
+		switch i & 3 {
+		case 1:
+			m &= c.Rand.Uint64()
+		case 2:
+			m |= c.Rand.Uint64()
+		}
+		c17BitsDirect(c, x, m, "random")
+	}
+	n += int64(rn)
+	c.Note("pdep/pext direct sweep (BMI2=%v vs portable vs exported dispatch; portable vs bit-by-bit semantics on the structured classes): %d pairs, exhaustive window %d bits x 3 positions", c17HasBMI2, n, bitsW)
+	c.Res.Evaluations += int(n)
+}
+
+// c17Pieces: the small regenerated functions against their real counterparts (hooks), whole boundary domains.
+func c17Pieces(c *core.Ctx) {
+	if c.Gen == nil {
+		c.Note("mieru-gen unavailable: the regenerated definitions were not evaluated")
+		return
+	}
+	// lowBits: every n the code can pass and beyond
+	for n := 0; n <= 72; n++ {
+		g := c.Gen.Ask("le-gen-lowbits %d", n)
+		c.Compared()
+		if want := fmt.Sprintf("ok %d", protocol.VerifLowBits(n)); g != want {
+			c.Disagree("C17/corr/le-gen-lowbits", fmt.Sprintf("lowBits(%d): regenerated %s impl %s", n, g, want), leCase{Kind: "lowbits", N: n})
+		}
+	}
+	// rotateLowEntropyMask: every rotation byte 0..255 (the function itself does not validate) x chunk indices
+	// around 0, the 64-chunk cycle and the largest index x mask shapes
+	idx := []int{0, 1, 2, 3, 15, 16, 17, 31, 32, 33, 62, 63, 64, 65, 127, 128, 129, 4095, 8190, 8191}
+	masks := []uint64{0x0f0f0f0f0f0f0f0f, 0x8000000000000001, 0x00000000ffffffff, 0xfffffffe7fffffff, mathext.RepeatUint32(randHalfMask(c, 20))}
+	for rot := 0; rot <= 255; rot++ {
+		for _, i := range idx {
+			for mi, m := range masks {
+				if mi > 1 && (rot+i)%3 != 0 { // thin out the heavier masks deterministically
+					continue
+				}
+				g := c.Gen.Ask("le-gen-rot %d %d %d", m, rot, i)
+				c.Compared()
+				real := protocol.VerifRotateLowEntropyMask(m, rot, i)
+				if g != fmt.Sprintf("ok %d", real) {
+					c.Disagree("C17/corr/le-gen-rot", fmt.Sprintf("rotateLowEntropyMask(%#x,%d,%d): regenerated %s impl %d", m, rot, i, g, real), leCase{Kind: "rot", Mask: m, Rot: rot, I: i})
+				}
+				// direct oracle (documented rule): right by i*R for R in 1..15, left by i*(R/16) for R = 16k
+				if c17ValidRot(rot) {
+					want := m
+					if rot >= 1 && rot <= 15 {
+						want = bits.RotateLeft64(m, -((i * rot) % 64))
+					} else if rot >= 16 {
+						want = bits.RotateLeft64(m, (i*(rot/16))%64)
+					}
+					if real != want {
+						c.Violate(fmt.Sprintf("C17/spec/chunk-mask/rot=%s", c17RotClass(rot)), fmt.Sprintf("chunk %d under rotation %d uses mask %#x, docs/protocol.md prescribes %#x (initial %#x)", i, rot, real, want, m), leCase{Kind: "rot", Mask: m, Rot: rot, I: i})
+					}
+				}
+			}
+		}
+	}
+	c.Hist("pieces", "rotateLowEntropyMask: 256 rotation bytes x 20 chunk indices")
+	// validateLowEntropyCodecParams and RepeatUint32: modes 0..6 x weights around each required weight x rotations
+	for mode := 0; mode <= 6; mode++ {
+		for w := 0; w <= 32; w++ {
+			near := false
+			for _, o := range leOnes[1:] {
+				if w >= o-1 && w <= o+1 {
+					near = true
+				}
+			}
+			if !near && w != 0 && w != 32 {
+				continue
+			}
+			half := randHalfMask(c, w)
+			for _, rot := range []int{0, 1, 15, 16, 17, 32, 240, 241, 255, 256, -1} {
+				g := c.Gen.Ask("le-gen-validate %d %d %d", mode, half, rot)
+				c.Compared()
+				cc, oo, err := protocol.VerifValidateLowEntropyCodecParams(mode, half, rot)
+				want := "err rejected"
+				if err == nil {
+					want = fmt.Sprintf("ok %d %d", cc, oo)
+				}
+				if g != want {
+					c.Disagree("C17/corr/le-gen-validate", fmt.Sprintf("validateLowEntropyCodecParams(%d,%08x,%d): regenerated %s impl %s", mode, half, rot, g, want), leCase{Kind: "validate", Mode: mode, Half: half, Rot: rot})
+				}
+				why := c17Invalid(mode, half, rot)
+				if (err == nil) != (why == "") {
+					c.Violate("C17/accepts-invalid/validator/"+map[bool]string{true: "rejects-valid", false: why}[why == ""], fmt.Sprintf("validateLowEntropyCodecParams(mode %d, mask %08x weight %d, rotation %d) err=%v", mode, half, w, rot, err), leCase{Kind: "validate", Mode: mode, Half: half, Rot: rot})
+				}
+			}
+			g := c.Gen.Ask("le-gen-repeat %d", half)
+			if g != fmt.Sprintf("ok %d", mathext.RepeatUint32(half)) {
+				c.Disagree("C17/corr/le-gen-repeat", fmt.Sprintf("RepeatUint32(%08x): regenerated %s impl %d", half, g, mathext.RepeatUint32(half)), nil)
+			}
+		}
+	}
+	c.Hist("pieces", "validateLowEntropyCodecParams: modes 0..6 x weights w-1,w,w+1,0,32 x 11 rotations")
+}
+
+// c17Run replays validate / rot / lowbits cases too (direct oracle only).
+func c17Small(c *core.Ctx, k leCase) {
+	switch k.Kind {
+	case "validate":
+		_, _, err := protocol.VerifValidateLowEntropyCodecParams(k.Mode, k.Half, k.Rot)
+		why := c17Invalid(k.Mode, k.Half, k.Rot)
+		c.Eval(fmt.Sprintf("validate/%d/%d/%d", k.Mode, k.Half, k.Rot), true)
+		if (err == nil) != (why == "") {
+			c.Violate("C17/accepts-invalid/validator/"+map[bool]string{true: "rejects-valid", false: why}[why == ""], fmt.Sprintf("validateLowEntropyCodecParams err=%v", err), k)
+		}
+	case "rot":
+		real := protocol.VerifRotateLowEntropyMask(k.Mask, k.Rot, k.I)
+		c.Eval(fmt.Sprintf("rot/%d/%d/%d", k.Mask, k.Rot, k.I), true)
+		if c17ValidRot(k.Rot) {
+			want := k.Mask
+			if k.Rot >= 1 && k.Rot <= 15 {
+				want = bits.RotateLeft64(k.Mask, -((k.I * k.Rot) % 64))
+			} else if k.Rot >= 16 {
+				want = bits.RotateLeft64(k.Mask, (k.I*(k.Rot/16))%64)
+			}
+			if real != want {
+				c.Violate(fmt.Sprintf("C17/spec/chunk-mask/rot=%s", c17RotClass(k.Rot)), fmt.Sprintf("chunk %d under rotation %d uses mask %#x, want %#x", k.I, k.Rot, real, want), k)
+			}
+		}
+	case "halfmask":
+		c17HalfMask(c, k.Mode, 1)
+	}
+}
+
+// c17HalfMask: the generator of fresh half masks returns the mode's weight (rng.Uint32WithBits for every n too).
+func c17HalfMask(c *core.Ctx, mode int, draws int) {
+	for i := 0; i < draws; i++ {
+		h, err := protocol.VerifNewLowEntropyHalfMask(mode)
+		c.Eval(fmt.Sprintf("halfmask/%d/%d", mode, i), true)
+		if mode >= 1 && mode <= 4 {
+			if err != nil || bits.OnesCount32(h) != leOnes[mode] {
+				c.Violate(fmt.Sprintf("C17/halfmask-weight/mode=%d", mode), fmt.Sprintf("newLowEntropyHalfMask(%d) = %08x with %d one-bits (err=%v), want %d", mode, h, bits.OnesCount32(h), err, leOnes[mode]), leCase{Kind: "halfmask", Mode: mode})
+				return
+			}
+		} else if err == nil {
+			c.Violate("C17/halfmask-accepts-invalid-mode", fmt.Sprintf("newLowEntropyHalfMask(%d) succeeded", mode), leCase{Kind: "halfmask", Mode: mode})
+			return
+		}
+	}
+}
+
+// c17Wrap: the wire-level wrappers (ciphertext body ‖ 16-byte tag) against the model and the direct oracle
+// (decode(encode) = identity, the tag untouched, lengths as announced by the metadata).
+func c17Wrap(c *core.Ctx, k leCase) {
+	ct := core.UnHex(k.Src) // ciphertext body ‖ tag as the sender has it
+	pad := int(protocol.VerifLowEntropyPaddingBit())
+	w, err := protocol.VerifEncodeLowEntropyEncrypted(ct, uint8(k.Proto), uint8(k.Mode), k.Half, uint8(k.Rot), uint16(k.PLen), uint16(k.ELen))
+	c.Eval(fmt.Sprintf("wrap/%s/%d/%d/%d/%d/%d/%d", k.Src, k.Proto, k.Mode, k.Half, k.Rot, k.PLen, k.ELen), err == nil)
+	got := "err rejected"
+	if err == nil {
+		got = "ok " + core.Hex(w)
+		c.Hist("branch", "wrap-encode-ok")
+	} else {
+		c.Hist("branch", "wrap-encode-rejected")
+	}
+	m := c.Model.Ask("le-wrap-enc %s %d %d %d %d %d %d", core.Hex(ct), k.Mode, k.Half, k.Rot, k.PLen, k.ELen, pad)
+	c.Compared()
+	if m != got {
+		c.Disagree("C17/corr/le-wrap-enc", fmt.Sprintf("encodeLowEntropyEncryptedPayload: model %.80s impl %.80s", m, got), k)
+	}
+	if err == nil {
+		if len(w) != k.PLen+16 || len(ct) < 16 || !bytes.Equal(w[len(w)-16:], ct[len(ct)-16:]) {
+			c.Violate("C17/wrap/tag-or-length", fmt.Sprintf("wire payload has %d bytes (metadata payloadLen %d + 16) or its last 16 bytes differ from the AEAD tag", len(w), k.PLen), k)
+		}
+		back, derr := protocol.VerifDecodeLowEntropyEncrypted(w, uint8(k.Proto), uint8(k.Mode), k.Half, uint8(k.Rot), uint16(k.PLen), uint16(k.ELen))
+		if (k.Proto == 10 || k.Proto == 11) && (derr != nil || !bytes.Equal(back, ct)) {
+			c.Violate("C17/wrap/roundtrip", fmt.Sprintf("decodeLowEntropyEncryptedPayload(encodeLowEntropyEncryptedPayload(x)) != x (err=%v)", derr), k)
+		}
+	}
+	// the receiving wrapper on the (possibly mutated) wire form
+	wireForm := w
+	if k.Enc != "" {
+		wireForm = core.UnHex(k.Enc)
+	}
+	if wireForm != nil {
+		back, derr := protocol.VerifDecodeLowEntropyEncrypted(wireForm, uint8(k.Proto), uint8(k.Mode), k.Half, uint8(k.Rot), uint16(k.PLen), uint16(k.ELen))
+		got := "err rejected"
+		if derr == nil {
+			got = "ok " + core.Hex(back)
+			c.Hist("branch", "wrap-decode-ok")
+		} else {
+			c.Hist("branch", "wrap-decode-rejected")
+		}
+		m := c.Model.Ask("le-wrap-dec %s %d %d %d %d %d %d", core.Hex(wireForm), k.Proto, k.Mode, k.Half, k.Rot, k.PLen, k.ELen)
+		c.Compared()
+		if m != got {
+			c.Disagree("C17/corr/le-wrap-dec", fmt.Sprintf("decodeLowEntropyEncryptedPayload: model %.80s impl %.80s", m, got), k)
+		}
+		if derr == nil && (len(back) != k.ELen+16 || !bytes.Equal(back[len(back)-16:], wireForm[len(wireForm)-16:])) {
+			c.Violate("C17/wrap/decoded-tag-or-length", "the reconstructed ciphertext has the wrong length or a changed tag", k)
+		}
 	}
 }
 
 func c17Run(c *core.Ctx, k leCase) {
 	switch k.Kind {
-	case "roundtrip":
+	case "roundtrip", "roundtrip-fill":
 		c17RoundTrip(c, k)
 	case "meta":
 		c17Meta(c, k)
 	case "bits":
 		c17Bits(c, k)
+	case "wrap":
+		c17Wrap(c, k)
+	case "validate", "rot", "halfmask", "lowbits":
+		c17Small(c, k)
 	default:
 		c17Decode(c, k)
 	}
 }
 
+// c17Boundaries: every boundary value the property's quantifier names and every boundary of every length /
+// count field, on EVERY run, before the random stream.
+func c17Boundaries(c *core.Ctx) {
+	rots := validRotations()
+	for mode := 1; mode <= 4; mode++ {
+		C := leC[mode]
+		fam := c17HalfFamily(leOnes[mode])
+		// body lengths: 1, C-1, C, C+1, 2C-1, 2C, around the 64-chunk rotation cycle, the protocol's 32764 / 32768,
+		// chunk counts 8190, 8191 (largest), 8192 (one too many) — big bodies are deterministic fills
+		small := []int{1, C - 1, C, C + 1, 2*C - 1, 2 * C, 2*C + 1, 63 * C, 63*C + 1, 64 * C, 64*C + 1, 65 * C, 65*C + 1, 128*C + 1}
+		for li, n := range small {
+			for pad := 0; pad <= 1; pad++ {
+				src := c17Fill("count", n)
+				if li%3 == 1 {
+					src = c17Fill([]string{"zero", "ff"}[pad], n)
+				}
+				for ri, rot := range []int{0, 1, 15, 16, 240} {
+					k := leCase{Kind: "roundtrip", Src: core.Hex(src), Mode: mode, Half: fam[(li+ri)%len(fam)], Rot: rot, Pad: pad}
+					c.Hist("boundary", fmt.Sprintf("body-len=%s", map[bool]string{true: fmt.Sprintf("%dC%+d", n/C, n%C), false: fmt.Sprint(n)}[n > 2*C+1]))
+					c17Run(c, k)
+				}
+			}
+		}
+		big := []int{32764, 32768, 8190 * C, 8190*C + 1, 8191*C - 1, 8191 * C, 8191*C + 1, 8192 * C}
+		for bi, n := range big {
+			if !c.Thorough() && bi >= 2 && bi <= 4 {
+				continue // 8190·C, 8190·C+1, 8191·C−1: thorough only
+			}
+			k := leCase{Kind: "roundtrip-fill", Fill: []string{"count", "zero", "ff"}[bi%3], N: n, Mode: mode, Half: fam[bi%len(fam)], Rot: []int{15, 240, 7, 0, 16, 1, 112, 15}[bi], Pad: bi % 2}
+			cc := (n + C - 1) / C
+			c.Hist("boundary", fmt.Sprintf("chunk-count=%s", map[bool]string{true: fmt.Sprint(cc), false: "other"}[cc >= 8190 || n == 32764 || n == 32768]))
+			if n == 32764 || n == 32768 {
+				c.Hist("boundary", fmt.Sprintf("body-len=%d", n))
+			}
+			c17Run(c, k)
+		}
+		// every valid rotation x both polarities, beyond one rotation cycle (66 chunks + a partial one)
+		for ri, rot := range rots {
+			for pad := 0; pad <= 1; pad++ {
+				c.Hist("boundary", "all-31-rotations x 2 polarities x 67 chunks")
+				c17Run(c, leCase{Kind: "roundtrip", Src: core.Hex(c17Fill("count", 66*C+1)), Mode: mode, Half: fam[ri%len(fam)], Rot: rot, Pad: pad})
+			}
+		}
+		// invalid parameters, each class alone: weight-1, weight+1, 0, 32; rotations just outside; modes outside; pad 2..255
+		okHalf := fam[0]
+		src := c17Fill("count", C+1)
+		for _, h := range []uint32{okHalf &^ (okHalf & -okHalf), okHalf | (^okHalf & -(^okHalf)), 0, ^uint32(0), okHalf | 0x80000000 | 0x40000000 | 0x20000000 | 0x10000000 | 0x08000000} {
+			c.Hist("boundary", "mask-weight w-1/w+1/0/32/heavier")
+			c17Run(c, leCase{Kind: "roundtrip", Src: core.Hex(src), Mode: mode, Half: h, Rot: 0, Pad: 0})
+			c17Run(c, leCase{Kind: "roundtrip", Src: core.Hex(src), Mode: mode, Half: h, Rot: 15, Pad: 1})
+		}
+		for _, rot := range []int{17, 31, 33, 241, 248, 255} {
+			c.Hist("boundary", "rotation just outside the enum")
+			c17Run(c, leCase{Kind: "roundtrip", Src: core.Hex(src), Mode: mode, Half: okHalf, Rot: rot, Pad: 0})
+		}
+		for _, pad := range []int{2, 3, 255} {
+			c.Hist("boundary", "padding bit > 1")
+			c17Run(c, leCase{Kind: "roundtrip", Src: core.Hex(src), Mode: mode, Half: okHalf, Rot: 1, Pad: pad})
+		}
+		c.Hist("boundary", "empty body")
+		c17Run(c, leCase{Kind: "roundtrip", Src: "-", Mode: mode, Half: okHalf, Rot: 0, Pad: 0})
+		// decoder: spec-conformant encodings (from the independent reference) must be accepted, for every rotation;
+		// heavier / lighter masks and lengths off by one must be rejected
+		for _, rot := range rots {
+			for pad := 0; pad <= 1; pad++ {
+				body := c17Fill("count", 3*C+2)
+				enc := wire.LEEncode(body, uint8(mode), okHalf, uint8(rot), pad)
+				c.Hist("boundary", "decoder x reference encodings x 31 rotations")
+				c17Run(c, leCase{Kind: "ref-encoding", Enc: core.Hex(enc), N: len(body), Mode: mode, Half: okHalf, Rot: rot})
+			}
+		}
+		body := c17Fill("count", 2*C+1)
+		enc := wire.LEEncode(body, uint8(mode), okHalf, 3, 1)
+		heavier := okHalf | (^okHalf & -(^okHalf))
+		for _, k := range []leCase{
+			{Kind: "heavier-mask", Enc: core.Hex(wire.LEEncode(body, uint8(mode), heavier, 3, 1)), N: len(body), Mode: mode, Half: heavier, Rot: 3},
+			{Kind: "lighter-mask", Enc: core.Hex(enc), N: len(body), Mode: mode, Half: okHalf &^ (okHalf & -okHalf), Rot: 3},
+			{Kind: "n-1", Enc: core.Hex(enc), N: len(body) - 1, Mode: mode, Half: okHalf, Rot: 3},
+			{Kind: "n+1", Enc: core.Hex(enc), N: len(body) + 1, Mode: mode, Half: okHalf, Rot: 3},
+			{Kind: "n=0", Enc: core.Hex(enc), N: 0, Mode: mode, Half: okHalf, Rot: 3},
+			{Kind: "n+C", Enc: core.Hex(enc), N: len(body) + C, Mode: mode, Half: okHalf, Rot: 3},
+			{Kind: "truncated-by-1", Enc: core.Hex(enc[:len(enc)-1]), N: len(body), Mode: mode, Half: okHalf, Rot: 3},
+			{Kind: "one-chunk-more", Enc: core.Hex(append(append([]byte{}, enc...), enc[:8]...)), N: len(body), Mode: mode, Half: okHalf, Rot: 3},
+			{Kind: "empty", Enc: "-", N: len(body), Mode: mode, Half: okHalf, Rot: 3},
+			{Kind: "rot-invalid", Enc: core.Hex(enc), N: len(body), Mode: mode, Half: okHalf, Rot: 19},
+			{Kind: "mode-0", Enc: core.Hex(enc), N: len(body), Mode: 0, Half: okHalf, Rot: 3},
+			{Kind: "mode-5", Enc: core.Hex(enc), N: len(body), Mode: 5, Half: okHalf, Rot: 3},
+		} {
+			c.Hist("boundary", "decoder:"+k.Kind)
+			c17Run(c, k)
+		}
+		// every single padding position of the last (partial) chunk and of chunk 0, both polarities: flipping it
+		// must be rejected (canonicity incl. the selected-but-unused tail)
+		for pad := 0; pad <= 1; pad++ {
+			enc := wire.LEEncode(body, uint8(mode), okHalf, 5, pad)
+			for _, chunk := range []int{0, len(enc)/8 - 1} {
+				for bit := 0; bit < 64; bit++ {
+					mut := append([]byte{}, enc...)
+					mut[chunk*8+7-bit/8] ^= 1 << uint(bit%8)
+					c.Hist("boundary", "decoder: every bit of chunk 0 and of the last chunk flipped")
+					c17Run(c, leCase{Kind: "flip-bit", Enc: core.Hex(mut), N: len(body), Mode: mode, Half: okHalf, Rot: 5})
+				}
+			}
+		}
+		// metadata: extracted length 0, 1, C-1..C+1, 32764, 32765, 32768, 32769, 65535 x payload length exact / ±8 /
+		// not a multiple of 8 / 0 / 65528 x types
+		for _, el := range []int{0, 1, C - 1, C, C + 1, 8191 * C, 8191*C + 1, 32764, 32765, 32767, 32768, 32769, 65535} {
+			exact := 0
+			if el > 0 {
+				exact = (el + C - 1) / C * 8
+			}
+			for _, pl := range []int{exact, exact + 8, exact - 8, exact + 1, 0, 8, 65528, 65535} {
+				if pl < 0 || pl > 65535 {
+					continue
+				}
+				for _, proto := range []int{10, 11, 6, 7} {
+					c.Hist("boundary", "metadata length pairs")
+					c17Run(c, leCase{Kind: "meta", Proto: proto, Mode: mode, Half: okHalf, Rot: 15, PLen: pl, ELen: el})
+				}
+			}
+		}
+		for _, h := range []uint32{okHalf &^ (okHalf & -okHalf), heavier, 0, ^uint32(0)} {
+			c17Run(c, leCase{Kind: "meta", Proto: 10, Mode: mode, Half: h, Rot: 0, PLen: 8, ELen: 1})
+		}
+		for _, rot := range []int{17, 241, 255} {
+			c17Run(c, leCase{Kind: "meta", Proto: 11, Mode: mode, Half: okHalf, Rot: rot, PLen: 8, ELen: 1})
+		}
+		// the empty segment (both length fields 0) is legal on the wire: every invalid parameter class alone with it
+		for _, h := range []uint32{okHalf &^ (okHalf & -okHalf), heavier, 0, ^uint32(0)} {
+			c.Hist("boundary", "metadata: empty segment x invalid parameter")
+			c17Run(c, leCase{Kind: "meta", Proto: 10, Mode: mode, Half: h, Rot: 0, PLen: 0, ELen: 0})
+		}
+		for _, rot := range []int{17, 241, 255} {
+			c17Run(c, leCase{Kind: "meta", Proto: 11, Mode: mode, Half: okHalf, Rot: rot, PLen: 0, ELen: 0})
+		}
+		c17Run(c, leCase{Kind: "meta", Proto: 10, Mode: mode, Half: okHalf, Rot: 240, PLen: 0, ELen: 0})
+		c17Run(c, leCase{Kind: "meta", Proto: 6, Mode: mode, Half: okHalf, Rot: 0, PLen: 0, ELen: 0})
+		// wrappers: body lengths 1, C, C+1; metadata exact / payloadLen off / extractedLen off / wrong type / short tag
+		for _, n := range []int{1, C, C + 1, 3*C + 2} {
+			ct := c17Fill("count", n+16)
+			pl := (n + C - 1) / C * 8
+			for _, k := range []leCase{
+				{Kind: "wrap", Src: core.Hex(ct), Proto: 10, Mode: mode, Half: okHalf, Rot: 15, PLen: pl, ELen: n},
+				{Kind: "wrap", Src: core.Hex(ct), Proto: 11, Mode: mode, Half: okHalf, Rot: 240, PLen: pl, ELen: n},
+				{Kind: "wrap", Src: core.Hex(ct), Proto: 10, Mode: mode, Half: okHalf, Rot: 0, PLen: pl + 8, ELen: n},
+				{Kind: "wrap", Src: core.Hex(ct), Proto: 10, Mode: mode, Half: okHalf, Rot: 0, PLen: pl, ELen: n - 1},
+				{Kind: "wrap", Src: core.Hex(ct), Proto: 10, Mode: mode, Half: okHalf, Rot: 0, PLen: pl, ELen: n + 1},
+				{Kind: "wrap", Src: core.Hex(ct[:len(ct)-1]), Proto: 10, Mode: mode, Half: okHalf, Rot: 0, PLen: pl, ELen: n},
+				{Kind: "wrap", Src: core.Hex(ct), Proto: 6, Mode: mode, Half: okHalf, Rot: 0, PLen: pl, ELen: n},
+				{Kind: "wrap", Src: core.Hex(ct), Proto: 10, Mode: mode, Half: heavier, Rot: 0, PLen: pl, ELen: n},
+			} {
+				c.Hist("boundary", "wrappers")
+				c17Run(c, k)
+			}
+		}
+		c17Run(c, leCase{Kind: "wrap", Src: core.Hex(c17Fill("count", 16)), Proto: 10, Mode: mode, Half: okHalf, Rot: 0, PLen: 0, ELen: 0}) // empty body
+	}
+	for _, mode := range []int{0, 5, 6, 255} {
+		c.Hist("boundary", "mode outside 1..4")
+		c17Run(c, leCase{Kind: "roundtrip", Src: "0102030405", Mode: mode, Half: 0x0f0f0f0f, Rot: 0, Pad: 0})
+		c17Run(c, leCase{Kind: "meta", Proto: 10, Mode: mode, Half: 0x0f0f0f0f, Rot: 0, PLen: 8, ELen: 1})
+		c17Run(c, leCase{Kind: "meta", Proto: 10, Mode: mode, Half: 0x0f0f0f0f, Rot: 0, PLen: 0, ELen: 0})
+	}
+	// the document's worked example
+	c17Run(c, leCase{Kind: "roundtrip", Src: "12345678", Mode: 1, Half: 0x0f0f0f0f, Rot: 0, Pad: 0})
+	c17Run(c, leCase{Kind: "roundtrip", Src: "12345678", Mode: 1, Half: 0x0f0f0f0f, Rot: 0, Pad: 1})
+}
+
 func init() {
 	core.Register("C17", &core.Scenario{
 		Run: func(c *core.Ctx) {
-			c.Res.Rule = "structured stream: (body, mode, half-mask of the mode's weight, valid rotation, padding bit) round trips incl. boundary lengths; malformed stream: arbitrary/mutated encodings and parameter tuples offered to the decoder and the metadata validator; (x,mask) pairs for pdep/pext. Distinct = distinct canonical input tuple; all cases are non-trivial except encoder rejections."
-			c.Correspondence("le-enc/le-dec/le-meta/pdep/pext: pkg/protocol low_entropy.go + pkg/mathext bit.go vs Mieru.Model.LowEntropy")
-			c.Note("BMI2 available on this CPU: %v", mathext.VerifHasBMI2())
+			c.Res.Rule = "deterministic boundary stream (every run): body lengths 1, C-1, C, C+1, around 64 chunks, 32764, 32768, chunk counts 8190/8191/8192, every rotation x polarity x mode, every invalid parameter class alone, reference encodings, every flipped bit of the first and last chunk, metadata length pairs, wrappers; then the random structured stream (body, mode, half mask of the mode's weight, valid rotation, padding bit), a malformed stream for the decoder and the metadata validator, and (x,mask) pairs for pdep/pext (structured sweep + random). Distinct = distinct canonical input tuple; all cases are non-trivial except encoder rejections."
+			c.Correspondence("le-enc/le-dec/le-meta/le-wrap-*/pdep/pext: pkg/protocol low_entropy.go, metadata.go, underlay_base.go + pkg/mathext bit.go vs Mieru.Model.LowEntropy")
+			c.Correspondence("le-gen-*: the same real functions (and rotateLowEntropyMask, lowBits, validateLowEntropyCodecParams, RepeatUint32 through hooks) vs the REGENERATED Mieru.Gen.LE (mieru-gen)")
+			c.Note("BMI2 available on this CPU: %v", c17HasBMI2)
 			rots := validRotations()
+			// --- deterministic boundaries first
+			c17Boundaries(c)
+			c17Pieces(c)
+			for mode := 0; mode <= 5; mode++ {
+				c17HalfMask(c, mode, c.N(200, 5000))
+			}
+			for n := 0; n <= 32; n++ {
+				for i := 0; i < c.N(50, 1000); i++ {
+					if v := rng.Uint32WithBits(n); bits.OnesCount32(v) != n {
+						c.Violate(fmt.Sprintf("C17/uint32withbits/n=%d", n), fmt.Sprintf("rng.Uint32WithBits(%d) = %08x has %d one-bits", n, v, bits.OnesCount32(v)), leCase{Kind: "halfmask", Mode: n})
+						break
+					}
+				}
+			}
+			c.Hist("boundary", "half-mask generator: modes 0..5, Uint32WithBits 0..32")
 			// --- structured round trips
 			nrt := c.N(400, 6000)
 			for i := 0; i < nrt; i++ {
@@ -239,22 +980,12 @@ func init() {
 				}
 				c17Run(c, k)
 			}
-			// every mode x every valid rotation x both polarities once, multi-chunk
-			for mode := 1; mode <= 4; mode++ {
-				for _, rot := range rots {
-					for pad := 0; pad < 2; pad++ {
-						src := make([]byte, 3*leC[mode]+1)
-						c.Rand.Read(src)
-						c17Run(c, leCase{Kind: "roundtrip", Src: core.Hex(src), Mode: mode, Half: randHalfMask(c, leOnes[mode]), Rot: rot, Pad: pad})
-					}
-				}
-			}
 			// --- encoder/decoder parameter rejection
 			for i := 0; i < c.N(150, 1500); i++ {
 				mode := c.Rand.Intn(7)
 				half := c.Rand.Uint32()
 				if c.Rand.Intn(2) == 0 && mode >= 1 && mode <= 4 {
-					w := leOnes[mode] + []int{-1, 1, 0}[c.Rand.Intn(3)]
+					w := leOnes[mode] + []int{-1, 1, 0, 2, 4}[c.Rand.Intn(5)]
 					half = randHalfMask(c, w)
 				}
 				rot := c.Rand.Intn(256)
@@ -271,12 +1002,9 @@ func init() {
 				c.Rand.Read(src)
 				half := randHalfMask(c, leOnes[mode])
 				rot := rots[c.Rand.Intn(len(rots))]
-				enc, err := protocol.VerifEncodeLowEntropy(src, mode, half, rot, uint8(c.Rand.Intn(2)))
-				if err != nil {
-					continue
-				}
+				enc := wire.LEEncode(src, uint8(mode), half, uint8(rot), c.Rand.Intn(2))
 				k := leCase{Kind: "flip", N: n, Mode: mode, Half: half, Rot: rot}
-				switch c.Rand.Intn(7) {
+				switch c.Rand.Intn(8) {
 				case 0: // flip one bit anywhere (data bit: still canonical; padding bit: mixed)
 					enc[c.Rand.Intn(len(enc))] ^= 1 << uint(c.Rand.Intn(8))
 				case 1: // flip a bit in the last chunk (unused tail positions)
@@ -300,6 +1028,8 @@ func init() {
 				case 6:
 					k.Kind = "random"
 					c.Rand.Read(enc)
+				case 7:
+					k.Kind = "untouched"
 				}
 				k.Enc = core.Hex(enc)
 				if i < 1 {
@@ -335,12 +1065,36 @@ func init() {
 				proto := []int{10, 11, 10, 11, 6, 7, 8, 2, 200}[c.Rand.Intn(9)]
 				c17Run(c, leCase{Kind: "meta", Proto: proto, Mode: mode, Half: half, Rot: rot, PLen: pl & 0xffff, ELen: el})
 			}
-			// --- pdep / pext
+			// --- wrappers, random
+			for i := 0; i < c.N(150, 2000); i++ {
+				mode := 1 + c.Rand.Intn(4)
+				C := leC[mode]
+				n := 1 + c.Rand.Intn(5*C)
+				ct := make([]byte, n+16)
+				c.Rand.Read(ct)
+				k := leCase{Kind: "wrap", Src: core.Hex(ct), Proto: 10 + c.Rand.Intn(2), Mode: mode, Half: randHalfMask(c, leOnes[mode]), Rot: rots[c.Rand.Intn(len(rots))], PLen: (n + C - 1) / C * 8, ELen: n}
+				if c.Rand.Intn(4) == 0 { // a tampered wire form offered to the receiving wrapper
+					w, err := protocol.VerifEncodeLowEntropyEncrypted(ct, uint8(k.Proto), uint8(k.Mode), k.Half, uint8(k.Rot), uint16(k.PLen), uint16(k.ELen))
+					if err == nil {
+						w[c.Rand.Intn(len(w))] ^= 1 << uint(c.Rand.Intn(8))
+						k.Enc = core.Hex(w)
+					}
+				}
+				c17Run(c, k)
+			}
+			// --- pdep / pext: model + regenerated definitions on structured and random pairs; then the big direct sweep
 			var pairs [][2]uint64
 			for i := 0; i < 64; i++ {
-				pairs = append(pairs, [2]uint64{^uint64(0), 1 << uint(i)}, [2]uint64{c.Rand.Uint64(), ^uint64(0) >> uint(i)}, [2]uint64{c.Rand.Uint64(), ^uint64(0) << uint(i)})
+				pairs = append(pairs, [2]uint64{^uint64(0), 1 << uint(i)}, [2]uint64{1 << uint(i), 1 << uint(63-i)}, [2]uint64{c.Rand.Uint64(), ^uint64(0) >> uint(i)}, [2]uint64{c.Rand.Uint64(), ^uint64(0) << uint(i)})
 			}
-			pairs = append(pairs, [2]uint64{0, 0}, [2]uint64{^uint64(0), 0}, [2]uint64{^uint64(0), ^uint64(0)}, [2]uint64{0x12345678, 0x0f0f0f0f0f0f0f0f})
+			pairs = append(pairs, [2]uint64{0, 0}, [2]uint64{^uint64(0), 0}, [2]uint64{^uint64(0), ^uint64(0)}, [2]uint64{0x12345678, 0x0f0f0f0f0f0f0f0f}, [2]uint64{0, ^uint64(0)})
+			for mode := 1; mode <= 4; mode++ {
+				for _, h := range c17HalfFamily(leOnes[mode]) {
+					for _, rot := range []int{0, 1, 15, 31, 32, 63} {
+						pairs = append(pairs, [2]uint64{c.Rand.Uint64(), bits.RotateLeft64(mathext.RepeatUint32(h), rot)})
+					}
+				}
+			}
 			for i := 0; i < c.N(300, 4000); i++ {
 				x, m := c.Rand.Uint64(), c.Rand.Uint64()
 				switch c.Rand.Intn(4) {
@@ -361,6 +1115,7 @@ func init() {
 				}
 				c17Run(c, k)
 			}
+			c17BitsSweep(c)
 		},
 		Replay: func(c *core.Ctx, raw json.RawMessage) {
 			var k leCase
